@@ -871,3 +871,264 @@ Proof.
   apply existsb_exists in Hex. destruct Hex as (t & Hin & He).
   apply in_seq in Hin. exists t; split; [lia|auto].
 Qed.
+
+(* ------------------------------------------------------------------------- *)
+(* conservation of values: appended + still to be appended = the program's   *)
+(* ------------------------------------------------------------------------- *)
+
+Fixpoint adds (q : nat) (l : list call) : list Z :=
+  match l with
+  | [] => []
+  | CAdd q' v :: r => if q' =? q then v :: adds q r else adds q r
+  | _ :: r => adds q r
+  end.
+
+(* values this thread will still append to queue q (the head AddValue of a thread in PSend,
+   or of a thread that panicked in its send, is already appended) *)
+Definition pend_th (q : nat) (th : thread) : list Z :=
+  adds q (match tph th with PSend _ | PStuck => tl (tcalls th) | _ => tcalls th end).
+Definition pending (q : nat) (c : config) : list Z := concat (map (pend_th q) (threads c)).
+
+Lemma adds_app q a b : adds q (a ++ b) = adds q a ++ adds q b.
+Proof.
+  induction a as [|k a IH]; simpl; auto.
+  destruct k; auto. destruct (q0 =? q); simpl; now rewrite IH.
+Qed.
+
+Lemma adds_continue q th v ok : simple_loop th -> adds q (fst (continue (tloop th) v ok)) = [].
+Proof.
+  intros Hs. destruct (proj1 (simple_continue th v ok Hs)) as [E|[q' [_ E]]]; now rewrite E.
+Qed.
+
+Lemma concat_set_nth_ext2 {A B} (f : A -> list B) t x l d ex :
+  t < length l -> f (nth t l d) = ex ++ f x ->
+  Permutation (concat (map f l)) (ex ++ concat (map f (set_nth t x l))).
+Proof.
+  intros Hlt Hf. pose proof (concat_set_nth_perm f t x l d Hlt) as H. rewrite Hf in H.
+  rewrite app_assoc in H. apply Permutation_app_inv_r in H.
+  symmetry. etransitivity; [apply Permutation_app_comm|exact H].
+Qed.
+
+Lemma pending_upd q c c' t th' ex :
+  threads c' = set_nth t th' (threads c) -> t < length (threads c) ->
+  pend_th q (gett c t) = ex ++ pend_th q th' ->
+  Permutation (pending q c) (ex ++ pending q c').
+Proof.
+  intros E Hlt H. unfold pending. rewrite E.
+  apply (concat_set_nth_ext2 (pend_th q) t th' (threads c) dummyt ex); auto.
+Qed.
+
+Lemma step_pending c t c' qa :
+  Inv c -> simple c -> qa < length (queues c) -> step c t = Some c' ->
+  exists l, qapp (getq c' qa) = qapp (getq c qa) ++ l /\
+            Permutation (pending qa c) (l ++ pending qa c').
+Proof.
+  intros HI HS Hqa H. pose proof (step_tid _ _ _ H) as Hlt.
+  pose proof (simple_gett c t HS Hlt) as Hs.
+  assert (Hth : T_inv (gett c t)) by (apply T_inv_gett; apply HI).
+  apply step_stepR in H; stepR_cases H;
+    try (exists []; split;
+         [ rewrite app_nil_r; frame_field qapp
+         | eapply pending_upd; [reflexivity | exact Hlt |];
+           unfold pend_th; rewrite ?tph_finish_head, ?(proj1 (finish_head_fields _ _ _ _));
+           rewrite Hph; simpl tph; simpl tcalls; cbv iota; rewrite ?Hc; simpl tl; simpl;
+           rewrite ?adds_app, ?(adds_continue _ _ _ _ Hs), ?app_nil_r; reflexivity ]; fail).
+  - (* append *)
+    destruct (Nat.eqb_spec q qa) as [->|Hne].
+    + exists [v]. split.
+      * rewrite getq_sett, getq_setq_eq by auto. reflexivity.
+      * eapply pending_upd; [reflexivity | exact Hlt |].
+        unfold pend_th. rewrite Hph. simpl. rewrite Hc. simpl. now rewrite Nat.eqb_refl.
+    + exists []. split.
+      * rewrite app_nil_r, getq_sett. now rewrite getq_setq_neq by auto.
+      * eapply pending_upd; [reflexivity | exact Hlt |].
+        unfold pend_th. rewrite Hph. simpl. rewrite Hc. simpl.
+        destruct (Nat.eqb_spec q qa); [congruence|reflexivity].
+  - (* discard on an empty list *)
+    exists []. split; [now rewrite app_nil_r|].
+    eapply pending_upd; [reflexivity | exact Hlt |].
+    unfold T_inv in Hth; rewrite Hph in Hth. destruct Hth as (rest' & E).
+    unfold pend_th. rewrite Hph. simpl. rewrite E. reflexivity.
+Qed.
+
+Theorem values_conserved c0 c qa :
+  initial c0 -> simple c0 -> qa < length (queues c0) -> reachable c0 c ->
+  Permutation (qapp (getq c qa) ++ pending qa c) (pending qa c0).
+Proof.
+  intros Hi HS Hqa [s <-].
+  cut (Inv (run c0 s) /\ simple (run c0 s) /\ qa < length (queues (run c0 s)) /\
+       Permutation (qapp (getq (run c0 s) qa) ++ pending qa (run c0 s)) (pending qa c0)); [tauto|].
+  apply (run_ind_inv (fun c => Inv c /\ simple c /\ qa < length (queues c) /\
+           Permutation (qapp (getq c qa) ++ pending qa c) (pending qa c0))).
+  - intros c t c' (HI & HSc & Hq & HP) H.
+    split; [eapply step_preserves_inv; eauto|].
+    split; [eapply step_preserves_simple; eauto|].
+    split; [now rewrite (step_queues_length _ _ _ H)|].
+    destruct (step_pending c t c' qa HI HSc Hq H) as (l & A & B).
+    rewrite A, <- app_assoc, <- B. exact HP.
+  - split; [now apply initial_inv|]. split; auto. split; auto.
+    destruct (initial_open c0 qa Hi) as [_ _].
+    destruct Hi as [[caps Hq] _]. unfold getq. rewrite Hq. change dummyq with (mkq 0).
+    rewrite map_nth. simpl. apply Permutation_refl.
+Qed.
+
+Lemma adds_map0 vs : adds 0 (map (CAdd 0) vs ++ [CDone]) = vs.
+Proof. induction vs as [|v vs IH]; simpl; auto. now rewrite IH. Qed.
+
+Lemma concat_map_nil {A B} (f : A -> list B) l : (forall x, In x l -> f x = []) -> concat (map f l) = [].
+Proof.
+  induction l as [|h tl IH]; intros H; simpl; auto.
+  rewrite (H h (or_introl eq_refl)), IH; auto. intros x Hx; apply H; now right.
+Qed.
+
+Lemma pc_pending cap vss nc nd : pending 0 (pc_config cap vss nc nd) = concat vss.
+Proof.
+  unfold pending, pc_config. cbn [threads]. rewrite !map_app, !concat_app.
+  rewrite (concat_map_nil (pend_th 0) (repeat (consumer 0) nc))
+    by (intros x Hx; apply repeat_spec in Hx; now subst).
+  rewrite (concat_map_nil (pend_th 0) (repeat drainer nd))
+    by (intros x Hx; apply repeat_spec in Hx; now subst).
+  simpl. rewrite !app_nil_r. rewrite map_map. f_equal.
+  transitivity (map (fun x : list Z => x) vss); [|apply map_id].
+  apply map_ext. intros vs. unfold pend_th, producer. simpl. apply adds_map0.
+Qed.
+
+Lemma shape_simple th : shape th -> simple_loop th.
+Proof. intros [ws Hl | w ws Hl | Hl | Hl | Hl | Hl | Hl | Hl | Hl]; unfold simple_loop; eauto. Qed.
+
+Lemma W_simple c : W c -> simple c.
+Proof. intros HW. eapply Forall_impl; [|apply (W_shape c HW)]. apply shape_simple. Qed.
+
+Lemma shape_not_stuck th : shape th -> tph th <> PStuck.
+Proof. intros [ws ? Hp | w ws ? Hp | ? Hp | ? Hp | ? Hp | ? Hp | ? Hp | ? Hp | ? Hp]; rewrite Hp; discriminate. Qed.
+
+(* a configuration of a well-formed program in which nothing can move: everything finished,
+   nothing panicked, the queue is closed and empty and every value was popped exactly once *)
+Theorem pc_terminal cap vss nc nd c :
+  1 <= cap -> 1 <= nc -> reachable (pc_config cap vss nc nd) c ->
+  (forall t, step c t = None) ->
+  final c = true /\ no_stuck c /\
+  qclosed (getq c 0) = true /\ qtok (getq c 0) = 0 /\ qvals (getq c 0) = [] /\
+  qpop (getq c 0) = qapp (getq c 0) /\
+  Permutation (qapp (getq c 0)) (concat vss) /\
+  (nd = 0 -> Permutation (delivered c) (concat vss)).
+Proof.
+  intros Hcap Hnc Hr Hall.
+  pose proof (reachable_W _ _ _ _ _ Hcap Hnc Hr) as HW.
+  pose proof (pc_initial cap vss nc nd) as Hi.
+  assert (Hf : final c = true) by (apply all_blocked_final; auto).
+  assert (Hns : no_stuck c).
+  { eapply Forall_impl; [|apply (W_shape c HW)]. apply shape_not_stuck. }
+  (* every thread is finished: its pending list is empty *)
+  assert (Hz : forall th, In th (threads c) -> tcalls th = [] /\ tloop th = LNone).
+  { intros th Hin. unfold final in Hf. rewrite forallb_forall in Hf. specialize (Hf th Hin).
+    pose proof (W_shape c HW) as Hsh. rewrite Forall_forall in Hsh. specialize (Hsh th Hin).
+    unfold thread_done in Hf.
+    destruct Hsh as [ws Hl Hp E | w ws Hl Hp E | Hl Hp E | Hl Hp E | Hl Hp E | Hl Hp E
+                    | Hl Hp E | Hl Hp E | Hl Hp E]; rewrite Hp, ?E in Hf; try discriminate; auto.
+    destruct ws; discriminate. }
+  assert (Hcons : cnt is_cons (threads c) = 0).
+  { rewrite (cnt_const is_cons false); auto. intros th Hin. unfold is_cons.
+    now rewrite (proj2 (Hz th Hin)). }
+  destruct (W_cons c HW) as [Hc1|[Hcl Htok]]; [lia|].
+  destruct (final_accounting _ _ 0 Hi Hr Hf Hns) as [Happ Hlen].
+  rewrite Htok in Hlen. destruct (qvals (getq c 0)) eqn:Hv; [|discriminate].
+  rewrite app_nil_r in Happ.
+  assert (Hpend : pending 0 c = []).
+  { unfold pending. apply concat_map_nil. intros th Hin. unfold pend_th.
+    rewrite (proj1 (Hz th Hin)). destruct (tph th); reflexivity. }
+  assert (Hperm : Permutation (qapp (getq c 0)) (concat vss)).
+  { pose proof (values_conserved _ c 0 Hi (W_simple _ (pc_W cap vss nc nd Hcap Hnc)) ltac:(simpl; lia) Hr) as HP.
+    rewrite Hpend, app_nil_r, pc_pending in HP. exact HP. }
+  repeat split; auto.
+  intros ->.
+  assert (Hnr : no_removeall (pc_config cap vss nc 0)).
+  { unfold no_removeall, pc_config. cbn [threads]. simpl repeat. rewrite app_nil_r.
+    repeat (apply Forall_app; split).
+    - apply Forall_forall. intros x Hx. apply in_map_iff in Hx. destruct Hx as (vs & <- & _).
+      split; [intros; discriminate|]. intros q Hin. simpl in Hin. apply in_app_or in Hin.
+      destruct Hin as [Hin|[Hin|[]]]; [|discriminate].
+      apply in_map_iff in Hin. destruct Hin as (? & ? & _). discriminate.
+    - constructor; [|constructor]. split; [intros; discriminate|].
+      intros q Hin. simpl in Hin. intuition discriminate.
+    - apply Forall_forall. intros x Hx. apply repeat_spec in Hx. subst.
+      split; [intros; discriminate|]. intros q Hin. simpl in Hin. intuition discriminate. }
+  pose proof (exactly_once_single _ c cap Hi eq_refl Hnr Hr) as HD.
+  rewrite HD, <- Happ. exact Hperm.
+Qed.
+
+(* termination: schedules of enabled steps are bounded, and a run to a final configuration
+   always exists from every reachable configuration *)
+Lemma W_can_finish : forall n c, mu c <= n -> W c ->
+  exists s c', run_strict c s = Some c' /\ final c' = true.
+Proof.
+  induction n as [|n IH]; intros c Hmu HW.
+  - destruct (final c) eqn:Hf; [exists [], c; auto|].
+    destruct (W_progress c HW Hf) as (t & _ & He). unfold enabled in He.
+    destruct (step c t) as [c1|] eqn:E; [|discriminate].
+    pose proof (step_decreases_mu _ _ _ (W_simple c HW) E). lia.
+  - destruct (final c) eqn:Hf; [exists [], c; auto|].
+    destruct (W_progress c HW Hf) as (t & _ & He). unfold enabled in He.
+    destruct (step c t) as [c1|] eqn:E; [|discriminate].
+    pose proof (step_decreases_mu _ _ _ (W_simple c HW) E).
+    destruct (IH c1 ltac:(lia) (step_preserves_W _ _ _ HW E)) as (s & c' & Hs & Hf').
+    exists (t :: s), c'. simpl. rewrite E. auto.
+Qed.
+
+Theorem pc_terminates cap vss nc nd :
+  1 <= cap -> 1 <= nc ->
+  let c0 := pc_config cap vss nc nd in
+  (* every step from a reachable configuration decreases the measure *)
+  (forall c t c', reachable c0 c -> step c t = Some c' -> mu c' < mu c) /\
+  (* so a schedule that only names enabled threads is no longer than mu c0 *)
+  (forall s c, run_strict c0 s = Some c -> length s <= mu c0) /\
+  (* no reachable configuration is deadlocked *)
+  (forall c, reachable c0 c -> deadlocked c = false) /\
+  (* from every reachable configuration some schedule runs to a final configuration *)
+  (forall c, reachable c0 c -> exists s c', run_strict c s = Some c' /\ final c' = true).
+Proof.
+  intros Hcap Hnc c0. subst c0. repeat split.
+  - intros c t c' Hr H. apply (step_decreases_mu c t c'); auto.
+    apply W_simple. apply (reachable_W cap vss nc nd c Hcap Hnc Hr).
+  - intros s c H. pose proof (run_strict_bound _ s c (W_simple _ (pc_W cap vss nc nd Hcap Hnc)) H). lia.
+  - intros c Hr. apply W_deadlock_free. apply (reachable_W cap vss nc nd c Hcap Hnc Hr).
+  - intros c Hr. apply (W_can_finish (mu c)); auto. apply (reachable_W cap vss nc nd c Hcap Hnc Hr).
+Qed.
+
+(* a maximal run (strict schedule after which nothing is enabled) ends as pc_terminal says *)
+Theorem pc_maximal_run cap vss nc nd s c :
+  1 <= cap -> 1 <= nc ->
+  run_strict (pc_config cap vss nc nd) s = Some c -> (forall t, enabled c t = false) ->
+  length s <= mu (pc_config cap vss nc nd) /\
+  final c = true /\ no_stuck c /\
+  qclosed (getq c 0) = true /\ qtok (getq c 0) = 0 /\ qvals (getq c 0) = [] /\
+  qpop (getq c 0) = qapp (getq c 0) /\
+  Permutation (qapp (getq c 0)) (concat vss) /\
+  (nd = 0 -> Permutation (delivered c) (concat vss)).
+Proof.
+  intros Hcap Hnc Hs Hen. split.
+  - apply (proj1 (proj2 (pc_terminates cap vss nc nd Hcap Hnc)) s c Hs).
+  - apply (pc_terminal cap vss nc nd c Hcap Hnc).
+    + exists s. now apply run_strict_run.
+    + intros t. specialize (Hen t). unfold enabled in Hen. destruct (step c t); [discriminate|auto].
+Qed.
+
+Lemma mu_pc cap vss nc nd :
+  mu (pc_config cap vss nc nd) = 4 * length (concat vss) + length vss + 2 + nc + nd.
+Proof.
+  unfold mu, pc_config. cbn [queues threads]. simpl list_sum at 1.
+  rewrite !map_app, !list_sum_app.
+  assert (P : list_sum (map th_cost (map producer vss)) = 4 * length (concat vss) + length vss).
+  { induction vss as [|vs vss IH]; simpl; auto. rewrite app_length.
+    change (map th_cost (map producer vss)) with (map th_cost (map producer vss)).
+    rewrite IH. unfold th_cost at 1. simpl. rewrite calls_cost_app.
+    assert (Q : calls_cost (map (CAdd 0) vs) = 4 * length vs).
+    { clear. induction vs as [|v vs IH]; auto. unfold calls_cost in *. simpl. rewrite IH. lia. }
+    rewrite Q. unfold calls_cost. simpl. lia. }
+  rewrite P.
+  assert (C : list_sum (map th_cost (repeat (consumer 0) nc)) = nc).
+  { induction nc as [|n IH]; auto. simpl. rewrite IH. reflexivity. }
+  assert (D : list_sum (map th_cost (repeat drainer nd)) = nd).
+  { induction nd as [|n IH]; auto. simpl. rewrite IH. reflexivity. }
+  rewrite C, D. simpl. lia.
+Qed.
